@@ -38,10 +38,12 @@ def run(history, timeout):
                 getattr(tm, step)()
                 g_start, g_stop = clk.t, None
             elif step == "stop":
-                already = g_stop is not None
+                if g_stop is not None or g_start is None:
+                    # stop() on a timer that is already stopped or was never started: the property statement does not fix what
+                    # that means (the contract leaves it unconstrained, DESIGN 3/C09) - this history is not judged further
+                    return None
                 tm.stop()
-                if not already:
-                    g_stop = clk.t
+                g_stop = clk.t
             elif isinstance(step, tuple) and step[0] == "adv":
                 clk.t += step[1]
             elif isinstance(step, tuple) and step[0] == "jump":
